@@ -115,24 +115,34 @@ def judge_extent_sites(facts, b, only_blocks=None):
                 if buf is not None:
                     if buf != ptr:
                         probs.append("size is computed against %s but %s is freed" % (fmt_expr(buf)[:50], fmt_expr(ptr)[:50]))
+                    elif cb_field(ptr, "buf") is not None:
+                        probs.append("the buffer of a control block is freed with a size recomputed from a view, not with the block's recorded cap")
                 else:
                     cb = cb_field(size, "cap")
                     if cb is None or cb_field(ptr, "buf") != cb:
                         probs.append("size %s is neither (view - buf) + len nor the control block's own cap for its own buf" % fmt_expr(size)[:80])
             emit(0, "dealloc", not probs, "; ".join(probs) if probs else "dealloc(buf, Layout(size by formula, align 1))")
+            out[-1]["ctx_dep"] = (not probs) and ptr[0] == "param"
         elif p == "alloc::vec::Vec::<T>::from_raw_parts":
             a = [canon(eb.operand(x, loc)) for x in t["args"]]
             B, L, C = strip_ptr(a[0]), a[1], a[2]
             ok, how = False, ""
             buf, ln = is_extent_formula(C)
-            if buf is not None and buf == B:
+            ctx_dep = False
+            if buf is not None and buf == B and cb_field(B, "buf") is None:
+                # valid for an unshared Vec-backed handle only (its view ends where the allocation ends, A5); the buffer of a
+                # control block has its own recorded capacity. A bare parameter is whatever the callers pass: judged there too.
                 ok, how = True, "capacity = (view - buf) + len for the same buf"
+                ctx_dep = B[0] == "param"
+            elif buf is not None and buf == B:
+                ok, how = False, ""
             elif cb_field(C, "cap") is not None and cb_field(B, "buf") == cb_field(C, "cap"):
                 ok, how = True, "(buf, cap) of one control block"
             elif is_call(B, "sub") and isinstance(C, tuple) and C[0] == "bin" and C[1] == "Add" and B[2][1] in (C[2], C[3]) \
                     and isinstance(uncast(L), tuple) and uncast(L)[0] == "bin" and uncast(L)[1] == "Add" and B[2][1] in (uncast(L)[2], uncast(L)[3]):
                 ok, how = True, "ptr - off, len + off, cap + off with one off"
             emit(0, "from_raw_parts cap", ok, how if ok else "Vec rebuilt with capacity %s over %s: not the allocation's size (freeing it would use the wrong layout)" % (fmt_expr(C)[:80], fmt_expr(B)[:50]))
+            out[-1]["ctx_dep"] = ctx_dep
             # the length of the rebuilt Vec: the handle's own bytes, counted from the start of the allocation
             Lu = uncast(L)
             okl, howl = False, ""
